@@ -1053,7 +1053,10 @@ func c14Exhaustive(r *RunCtx, p *PRNG) error {
 				w.exec(tr, req, nil, true)
 				lv := tr.of(kind)[c14Key(w.provs[0], f1.Merkle, f1.Owner, f1.Start)]
 				if lv == nil {
-					return fmt.Errorf("c14: exhaustive world: request refused for fs=%d", fs)
+					// the request for this configuration was refused (or recorded no form): nothing to enumerate here;
+					// whether the refusal itself is right is decided by the correspondence and the monitors in w.exec
+					r.Hist("exhaustive", fmt.Sprintf("fs=%d,min=%d,%s: request recorded no form", fs, mn, kind))
+					continue
 				}
 				en := &c14Enum{req: req, w: w, kind: kind, prover: w.provs[0], f: f1, listed: lv.listed, unlisted: w.provs[7], maxDepth: depth, emitEach: r.Scale(13, 80)}
 				en.dfs(tr, 0, 0, false, false, []c14Op{req})
